@@ -123,7 +123,7 @@ class Summary:
             if not no:
                 return tree(yes, depth + 1)
             ty, tn = tree(yes, depth + 1), tree(no, depth + 1)
-            return ty if ty == tn else ("phi", c, ty, tn)
+            return ty if ty == tn else _merge_returns(c, ty, tn)
         return tree(list(self.returns), 0)
 
 
@@ -220,6 +220,8 @@ def _synonym(ft, args, kws):
     """pandas / numpy spellings of one operation -> one term (None: not a synonym this table knows)"""
     kw = dict(kws)
     name = ft[2] if ft[0] == "attr" else (ft[1] if ft[0] == "global" else None)
+    if ft == ("attr", ("global", "dict"), "fromkeys") and len(args) == 2 and not kws and args[0][0] in ("list", "tuple"):
+        return ("dict", tuple((k_, args[1]) for k_ in args[0][1]))  # dict.fromkeys([a, b], v) is {a: v, b: v}
     if ft[0] == "attr":
         x = ft[1]
         if name == "ravel" and not args and not kws:
@@ -228,6 +230,8 @@ def _synonym(ft, args, kws):
             d = args[0] if args else kw.get("decimals", ("const", 0))
             if len(args) <= 1 and set(kw) <= {"decimals"}:
                 return ("call", ("attr", x, "round"), (), (("decimals", d),))
+        if name == "searchsorted" and x[0] != "global" and len(args) >= 1:
+            return ("call", ("global", "numpy.searchsorted"), (x,) + tuple(args), kws)  # the ndarray method is the function
         if name in ("isna", "notna") and not args and not kws:
             return ("call", ("attr", x, {"isna": "isnull", "notna": "notnull"}[name]), (), ())
         if name == "clip" and x[0] != "global" and len(args) <= 2 and set(kw) <= {"min", "max", "lower", "upper"}:
@@ -265,6 +269,8 @@ def _synonym(ft, args, kws):
         if name == "pandas.concat" and kw.get("ignore_index") == ("const", True) and kw.get("axis", ("const", 0)) == ("const", 0):
             inner = ("call", ft, args, tuple(kv for kv in kws if kv[0] not in ("ignore_index", "axis")))
             return ("call", ("attr", inner, "reset_index"), (), (("drop", ("const", True)),))
+        if name == "numpy.arange" and len(args) == 2 and not kws and args[0] == ("const", 0):
+            return ("call", ft, (args[1],), ())  # arange(0, n) is arange(n)
         if name == "numpy.reshape" and len(args) == 2 and not kws and args[1][0] == "tuple":
             return ("call", ("attr", args[0], "reshape"), args[1][1], ())
     return None
@@ -277,6 +283,20 @@ def column_ref(t):
     if t[0] == "sub" and t[2][0] == "const" and isinstance(t[2][1], str):
         return t[1], t[2][1]
     return None
+
+
+def _merge_returns(c, a, b):
+    """phi(c, T(x1, y1), T(x2, y2)) for one constructor T (a namedtuple / class of the package, a tuple display) is T(phi(c, x1, x2),
+    phi(c, y1, y2)): a function that builds its result in both branches returns the same thing as one that decides the fields first"""
+    if a[0] == "tuple" and b[0] == "tuple" and len(a[1]) == len(b[1]):
+        return ("tuple", tuple(x if x == y else ("phi", c, x, y) for x, y in zip(a[1], b[1])))
+    if (a[0] == "call" and b[0] == "call" and a[1] == b[1] and a[1][0] == "global" and ":" in a[1][1] and len(a[2]) == len(b[2])
+            and [k for k, _ in a[3] if k != "#new"] == [k for k, _ in b[3] if k != "#new"]):
+        args = tuple(x if x == y else ("phi", c, x, y) for x, y in zip(a[2], b[2]))
+        ka, kb = [kv for kv in a[3] if kv[0] != "#new"], [kv for kv in b[3] if kv[0] != "#new"]
+        kws = tuple((k, x if x == y else ("phi", c, x, y)) for (k, x), (_, y) in zip(ka, kb)) + tuple(kv for kv in a[3] if kv[0] == "#new")
+        return ("call", a[1], args, kws)
+    return ("phi", c, a, b)
 
 
 def own_conditions(summary, pc):
